@@ -313,6 +313,8 @@ class NetworkMixin(RadioMixin):
     def multicast_level(self, lvl: int):
         lvl = min(4, max(lvl, 0))
         self._net_lvl = lvl
+        if not self.allow_multicast:
+            return  # pipe 0 stays on this node's own address (there is no level address)
         self._rf24.listen = False
         self._rf24.open_rx_pipe(0, self._pipe_address(_lvl_2_addr(lvl), 0))
         self._rf24.listen = True
